@@ -65,7 +65,8 @@ def diff_kind(a, b):
 
 
 def run_case(a):
-    cli, idx, seed, mode, nseeds, ntrans = a
+    cli, idx, seed, mode, nseeds, ntrans = a[:6]
+    drv = a[6] if len(a) > 6 else None
     rnd = random.Random(seed)
     files = compound.gen(rnd, idx)
     root = common.scratch("c13")
@@ -112,6 +113,30 @@ def run_case(a):
             extra = sorted(set(o) - set(base))
             if extra != ["dependency-graph.dot", "dependency-graph.txt"]:
                 viol.append(("C13 visualize-deps-file-set", "--visualize-deps adds %s instead of its two files" % extra, wit({"flag": "--visualize-deps"})))
+        # (2b) the other two entry paths: the library call generate_from_config and the build-script path are runs on the same
+        #      sources and configuration as well
+        if drv:
+            import json, os
+            json.dump({"project_path": os.path.join(root, "src"), "output_path": os.path.join(root, "out_lib"), "validation_library": mode}, open(os.path.join(root, "lib.cfg.json"), "w"))
+            r = common.run([drv, "gen", os.path.join(root, "lib.cfg.json")], cwd=root, hash_seed=hs0 + 1)
+            stats["runs"] += 1
+            if r.rc == 0 and not r.timed_out:
+                for (f, kind) in diff_kind(base, common.read_outputs(os.path.join(root, "out_lib"))):
+                    viol.append(("C13 entry-path=library changes-%s file=%s" % (kind, f), "generate_from_config with the same settings: %s differs from the CLI's (%s)" % (f, kind), wit({"entry": "library"})))
+            elif not r.timed_out:
+                viol.append(("C13 entry-path=library run-fails", "rc=%s %s" % (r.rc, (r.out + r.err)[-200:]), wit({"entry": "library"})))
+            proj.write_tauri_conf(root, "src", "out_build", mode, {})
+            r, _ = proj.build_generate(drv, root, hash_seed=hs0 + 2)
+            stats["runs"] += 1
+            if r.rc == 0 and not r.timed_out:
+                for (f, kind) in diff_kind(base, common.read_outputs(os.path.join(root, "out_build"))):
+                    viol.append(("C13 entry-path=build-script changes-%s file=%s" % (kind, f), "generate_at_build_time with the same settings: %s differs from the CLI's (%s)" % (f, kind), wit({"entry": "build"})))
+            elif not r.timed_out:
+                viol.append(("C13 entry-path=build-script run-fails", "rc=%s %s" % (r.rc, (r.out + r.err)[-200:]), wit({"entry": "build"})))
+            try:
+                os.unlink(os.path.join(root, "tauri.conf.json"))      # the later CLI runs of this case take their settings from flags only
+            except OSError:
+                pass
         # (3) semantics-preserving transformations
         for tno in range(ntrans):
             tf = compound.TRANSFORMS[(idx + tno) % len(compound.TRANSFORMS)]
@@ -136,11 +161,12 @@ def run_case(a):
 def run(tier):
     v = Verdict("C13", "exploration", tier)
     cli = common.build_cli()
+    drv = common.build_driver()
     n = 60 if tier == "quick" else 2000
     nseeds = 12 if tier == "quick" else 48
     ntrans = 4 if tier == "quick" else 8
     base = common.seed() * 13000019
-    jobs = [(cli, i, base + i, "none" if i % 2 == 0 else "zod", nseeds, ntrans) for i in range(n)]
+    jobs = [(cli, i, base + i, "none" if i % 2 == 0 else "zod", nseeds, ntrans, drv) for i in range(n)]
     res = common.pmap(run_case, jobs, chunksize=1)
     tot_bytes = tot_orders = multi = 0
     for (job, r) in zip(jobs, res):
@@ -164,7 +190,7 @@ def run(tier):
     v.extra["distinct_declaration_orders_total"] = tot_orders
     v.extra["projects_showing_more_than_one_order"] = multi
     rule = ("a case is one multi-file project (2-6 files, 3-9 types, 3-9 commands, 0-4 events) in one mode, generated under N hash seeds "
-            "(replayable shim + 2 OS-entropy processes) with permuted file creation order, with --verbose and --visualize-deps, and after M "
+            "(replayable shim + 2 OS-entropy processes) with permuted file creation order, with --verbose and --visualize-deps, through the library and build-script entry paths, and after M "
             "semantics-preserving transformations (noise, decoys, reorder, move, split, merge, rename files); non-trivial = >= 2 files; "
             "distinct by generator seed; evidence reports distinct outputs / declaration orders actually observed")
     return v.finish(rule, assumptions=["tmpfs readdir order follows creation order (reverse)", "declarations compared as token sequences split at column-0 export/import"])
